@@ -390,3 +390,67 @@ def family_randsz_nested(tier, seed, n=None):
         ops = [{"op": "construct", "o": "o1"}] + [{"op": "call", "call": c} for c in calls]
         out.append({"id": "L/rsnest/%s/%d" % ("member" if t % 2 == 0 else "elem", t), "world": world, "ops": ops, "tags": []})
     return out
+
+
+def family_uniqvec(tier, seed, n=None):
+    """unique_vec over two or three lists read as vectors: fixed-size random lists (one of them possibly NOT random - a
+    constant vector), with exhaustive truth tables before and after the lists grow together or the constant vector is
+    rewritten; random-size lists of equal solved size (the vectors are the EXPOSED elements, every size pinned in turn)"""
+    out = []
+    n = n or (8 if tier == "quick" else 90)
+    for t in range(n):
+        core = t < (n + 1) // 2
+        rnd = random.Random((454 if core else 4600 + seed) * 100003 + t)
+        nl = 2 if t % 3 else 3
+        w = rnd.choice([1, 2]) if nl == 2 else 1
+        size = rnd.choice([1, 2])
+        const = t % 4 == 1                       # the last vector is a non-random list
+        names = ["l%d" % i for i in range(1, nl + 1)]
+        fields = [fld("a", 2, False), fld("k", 2, False, rand=False, init=rnd.randrange(4))]
+        for i, nm in enumerate(names):
+            nonrand = const and i == nl - 1
+            fields.append(list_field(nm, w, False, rand=not nonrand, init=[rnd.randrange(1 << w) if nonrand else 0 for _ in range(size)], cap=4))
+        body = [{"k": "uniqv", "ls": names}]
+        if rnd.random() < 0.5:
+            body.append(E(B(rnd.choice(["le", "ne"]), SUB("l1", 0), F("a"))))
+        world = {"classes": {"A": {"base": "", "fields": fields, "blocks": [{"name": "c1", "dynamic": False, "body": body}]}},
+                 "population": [{"id": "o1", "cls": "A"}]}
+
+        def paths(sz):
+            return ["o1.a"] + ["o1.%s[%d]" % (nm, i) for nm in names for i in range(sz)]
+        ops = [{"op": "construct", "o": "o1"}, {"op": "call", "call": mcall()}, {"op": "call", "call": mcall()},
+               {"op": "probe", "call": wcall(), "paths": paths(size), "cap": 4096}]
+        if size * nl * w + 2 + nl * w <= 12:
+            # every vector grows by one element: the constraint spans the new position too
+            for nm in names:
+                ops.append({"op": "list", "kind": "l_append", "p": "o1." + nm, "vs": [bits(rnd.randrange(1 << w), w)]})
+            size += 1
+            ops += [{"op": "call", "call": mcall()}, {"op": "probe", "call": wcall(), "paths": paths(size), "cap": 4096}]
+        if const:
+            ops += [{"op": "list", "kind": "l_setitem", "p": "o1." + names[-1], "i": 0, "vs": [bits(rnd.randrange(1 << w), w)]},
+                    {"op": "call", "call": mcall()}, {"op": "probe", "call": wcall(), "paths": paths(size), "cap": 4096}]
+        # all vectors shrink to one element together
+        for nm in names:
+            ops.append({"op": "list", "kind": "l_assign", "p": "o1." + nm, "vs": [bits(rnd.randrange(1 << w), w)]})
+        ops += [{"op": "call", "call": mcall()}, {"op": "probe", "call": wcall(), "paths": paths(1), "cap": 4096}]
+        out.append({"id": "L/uniqv/fixed/%s/%d" % ("core" if core else "s%d" % seed, t), "world": world, "ops": ops, "tags": []})
+    m = 4 if tier == "quick" else 30
+    for t in range(m):
+        core = t < (m + 1) // 2
+        rnd = random.Random((464 if core else 4700 + seed) * 100003 + t)
+        w = 1 if t % 2 == 0 else 2
+        lo, hi = rnd.choice([(1, 2), (1, 3), (1, 2), (0, 2)]), None
+        lo, hi = lo
+        fields = [fld("a", 2, False), fld("k", 2, False, rand=False, init=rnd.randrange(4)),
+                  list_field("l1", w, False, randsz=True, cap=5), list_field("l2", w, False, randsz=True, cap=5)]
+        body = [E({"k": "in", "e": {"k": "size", "l": "l1"}, "items": [{"k": "r", "lo": lit(lo), "hi": lit(hi)}], "neg": False}),
+                E(B("eq", {"k": "size", "l": "l2"}, {"k": "size", "l": "l1"})),
+                {"k": "uniqv", "ls": ["l1", "l2"]}]
+        world = {"classes": {"A": {"base": "", "fields": fields, "blocks": [{"name": "c1", "dynamic": False, "body": body}]}},
+                 "population": [{"id": "o1", "cls": "A"}]}
+        ops = [{"op": "construct", "o": "o1"}] + [{"op": "call", "call": mcall()} for _ in range(6)]
+        for nsz in (hi, 1, 2, 1, hi, 1):
+            ops.append({"op": "call", "call": wcall([E(B("eq", {"k": "size", "l": "l1"}, lit(nsz)))])})
+            ops.append({"op": "call", "call": mcall()})
+        out.append({"id": "L/uniqv/randsz/%s/%d" % ("core" if core else "s%d" % seed, t), "world": world, "ops": ops, "tags": []})
+    return out
